@@ -169,6 +169,15 @@ def run(ctx):
         if len(out.samples) < 4 and errors and kept:
             out.sample({"lines": lines, "kept": kept, "errors": errors})
     derived_header_cases(ctx, out, rng)
+    for sym in ("@", "%", "!"):
+        out.evaluations += 1
+        out.failures += eval_start_symbol(sym)
+        out.distribution["another header start symbol configured"] += 1
+        out.nontrivial.add(("start-symbol", sym))
+    out.evaluations += 1
+    out.failures += eval_empty_basic_scheme()
+    out.distribution["registered basic scheme without columns"] += 1
+    out.nontrivial.add(("empty-basic-scheme",))
     out.evaluations += 1
     out.failures += eval_app_sort_order()
     out.distribution["header parsed before / after the application defines a sort order class"] += 1
@@ -341,6 +350,59 @@ def eval_app_sort_order():
         return [{"kind": "app-sort-order", "lines": lines, "before": _APP_ORDER["before"], "after": after,
                  "what": "the same header lines are parsed, diagnosed or printed differently once the application has defined a SortOrder sub-class of its own (differs on %s)" % (
                      [k for k in after if after[k] != _APP_ORDER["before"][k]])}]
+    return []
+
+
+def eval_start_symbol(sym):
+    """The character that starts a header line is one class-level setting (MafHeader.HeaderLineStartSymbol): with another
+    symbol configured, parsing and printing still invert each other for every kind of pragma."""
+    from maflib.header import MafHeader
+    from maflib.validation import ValidationStringency as VS
+    lines = [sym + "version gdc-1.0.0", sym + "annotation.spec gdc-1.0.0-public", sym + "sort.order Coordinate", sym + "contigs chr1,chr2,chr10", sym + "center broad"]
+    where = {"kind": "start-symbol", "symbol": sym, "lines": lines}
+    saved = MafHeader.HeaderLineStartSymbol
+    MafHeader.HeaderLineStartSymbol = sym
+    try:
+        with impl.LogCapture():
+            h = MafHeader.from_lines(list(lines), validation_stringency=VS.Silent)
+            errs = impl.errs_json(h.validation_errors)
+            printed = str(h).split("\n")
+            h2 = MafHeader.from_lines(list(printed), validation_stringency=VS.Silent)
+            errs2 = impl.errs_json(h2.validation_errors)
+        if errs:
+            return [dict(where, what="with the start symbol %r configured, well-formed lines starting with it are diagnosed: %s" % (sym, errs))]
+        if printed != lines:
+            return [dict(where, what="with the start symbol %r configured, printing does not give back the parsed lines: %s" % (sym, [p for p in printed if p not in lines]))]
+        if errs2 or h2.contigs() != h.contigs() or [(k, str(h2[k])) for k in h2] != [(k, str(h[k])) for k in h]:
+            return [dict(where, what="with the start symbol %r configured, the printed header does not parse back to the same header (%s)" % (sym, errs2))]
+    except Exception as e:  # noqa
+        return [dict(where, what="with the start symbol %r configured, parsing / printing failed with %s" % (sym, exc_name(e)))]
+    finally:
+        MafHeader.HeaderLineStartSymbol = saved
+    return []
+
+
+def eval_empty_basic_scheme():
+    """A registered basic scheme (annotation = version) that declares no columns of its own is a basic scheme like any
+    other: a header naming it is diagnosed exactly as a header naming the built-in basic scheme (fresh interpreter)."""
+    from . import c20
+    base = {"version": "acme-1.0", "annotation": "acme-1.0", "extends": None, "filtered": None, "columns": []}
+    full = {"version": "acme-1.0", "annotation": "acme-1.0-full", "extends": "acme-1.0", "filtered": None, "columns": [["note", "NullableStringColumn"]]}
+    shapes = [["#version %s"], ["#version %s", "#annotation.spec %s"], ["#annotation.spec %s"]]
+    ops = [{"k": "register", "defs": [base, full]}]
+    for name in ("acme-1.0", "gdc-1.0.0"):
+        for sh in shapes:
+            ops.append({"k": "header", "lines": [l % name for l in sh], "mode": "Silent"})
+    res = c20.run_history({"ops": ops, "late_import": False})
+    where = {"kind": "empty-basic-scheme", "lines": []}
+    if "crash" in res or res["steps"][0].get("exc") is not None:
+        return []           # (the definition set is refused: nothing to compare)
+    st = res["steps"][1:]
+    for k, sh in enumerate(shapes):
+        a, b = st[k].get("errors"), st[len(shapes) + k].get("errors")
+        if a is None or b is None or [e[0] for e in a] != [e[0] for e in b]:
+            return [dict(where, lines=[l % "acme-1.0" for l in sh],
+                         what="a header naming the registered basic scheme acme-1.0 (no columns of its own) is diagnosed %s, the same header naming the built-in basic scheme %s" % (a, b))]
     return []
 
 
@@ -803,6 +865,18 @@ def replay_case(ctx, failure):
     lines = failure.get("lines")
     if not isinstance(lines, list):
         return None
+    if failure.get("kind") == "start-symbol" and failure.get("symbol"):
+        fails = eval_start_symbol(failure["symbol"])
+        print("replay C13: MafHeader.HeaderLineStartSymbol = %r; MafHeader.from_lines(%s, Silent); str(header) parsed again" % (failure["symbol"], lines))
+        for x in fails:
+            print("  oracle: %s" % x["what"])
+        return fails
+    if failure.get("kind") == "empty-basic-scheme":
+        fails = eval_empty_basic_scheme()
+        print("replay C13: fresh interpreter; register acme-1.0 (basic, no columns) and acme-1.0-full extending it; headers naming acme-1.0 and gdc-1.0.0 in three shapes compared")
+        for x in fails:
+            print("  oracle: %s" % x["what"])
+        return fails
     if failure.get("kind") == "app-sort-order":
         fails = eval_app_sort_order()
         print("replay C13: MafHeader.from_lines(%s, Silent); then the application defines class AppReverseCoordinate(Coordinate); then the same lines are parsed again" % lines)
